@@ -9,7 +9,7 @@ props="$@"
 [ -z "$props" ] && props=$(echo $seed | cut -d- -f1)
 rc=0
 for p in $props; do
-  out=$(/verif/bin/govc check $p --repo $sc --no-evidence 2>&1); r=$?
+  out=$(${GOVC:-/verif/bin/govc} check $p --repo $sc --no-evidence 2>&1); r=$?
   echo "$seed $p exit=$r :: $(echo "$out" | grep -c '^VIOLATION') violations; $(echo "$out" | grep '^FAILED' | head -3 | cut -c1-160 | tr '\n' '|')"
   [ $r -ne 0 ] && rc=1
 done
